@@ -27,6 +27,7 @@ CONSTANTS Classes,      \* set of class records (see ColumnWriterMC)
           RowCounts, NullPats, ValPats, Modes, RppWants, Versions, RgOffsets, StatsModes,
           WriteOpts,    \* further write options that change how a value is STORED but not the table: "default" | "int96"
                         \* (times='int96' for timestamp columns) | "explicit" (object_encoding named for an object column)
+                        \* | "fixed" (fixed_text with a length no value exceeds, for object columns of text / bytes)
           Codecs        \* compression option: the layout (page cuts are by uncompressed size) and the cells do not depend on it
 
 NULL == -1
@@ -88,6 +89,7 @@ Inputs == [cls : Classes, n : RowCounts, nullpat : NullPats, valpat : ValPats, m
 Sensible(i) == /\ (i.nullpat # "none" => i.cls.sentinel # "NONE")       \* the dtype can hold a missing cell
                /\ (i.opt = "int96" => i.cls.sentinel = "NAT" /\ i.cls.name # "td_ns")
                /\ (i.opt = "explicit" => i.cls.sentinel = "OBJ")
+               /\ (i.opt = "fixed" => i.cls.sentinel = "OBJ" /\ i.cls.dtypeO)
                /\ Rpp(i) >= 1                                           \* page at least one element
                /\ (i.n = 0 => i.nullpat = "none" /\ i.valpat = "const")
 
